@@ -141,3 +141,42 @@ func vC03Cut(L int) {
 
 func vhC03_cut_L2() { vC03Cut(2) }
 func vhC03_cut_L3() { vC03Cut(3) }
+
+// C03(b): the same subscription used from 2..3 threads at once: {Unsubscribe, Add(teardown)}.
+// However the calls race, every teardown that was added runs exactly once (by the Unsubscribe that
+// disposes the subscription, or at once when added after disposal), and afterwards the subscription
+// is closed.
+func vC03SubConc(nthreads int) {
+	var counts [4]int
+	sub := NewSubscription(func() { counts[0]++ })
+	added := 1
+	kinds := make([]int, nthreads)
+	anyUnsub := false
+	for t := 0; t < nthreads; t++ {
+		kinds[t] = vChoice("op"+vItoa(t), 2)
+		if kinds[t] == 0 {
+			anyUnsub = true
+		}
+	}
+	if !anyUnsub {
+		vAssume(false)
+	}
+	for t := 0; t < nthreads; t++ {
+		if kinds[t] == 0 {
+			vGo(func() { sub.Unsubscribe() })
+		} else {
+			i := added
+			added++
+			vGo(func() { sub.Add(func() { counts[i]++ }) })
+		}
+	}
+	vQuiesce()
+	vAssert(sub.IsClosed(), "subscription: not closed after a concurrent Unsubscribe returned")
+	for i := 0; i < added; i++ {
+		vAssert(counts[i] == 1, "subscription: under concurrent Unsubscribe/Add a teardown did not run exactly once")
+	}
+	vReach("end")
+}
+
+func vhC03_subconc_2() { vC03SubConc(2) }
+func vhC03_subconc_3() { vC03SubConc(3) }
